@@ -46,7 +46,7 @@ def gen_function(rng, idx):
     for i, n in enumerate(names):
         o = orders[i] if mode == "all_ordered" or (mode == "partial" and i == 0) else None
         params.append({"name": n, "order": o})
-    kind = rng.choice(["arith", "arith", "ask_gt", "lookup"]) if k >= 2 else rng.choice(["arith", "lookup", "ask_has"])
+    kind = rng.choice(["arith", "arith", "ask_gt", "lookup", "lookup2"]) if k >= 2 else rng.choice(["arith", "lookup", "lookup2", "ask_has"])
     f = {"node": EX["fn%d" % idx], "params": params, "kind": kind}
     return f
 
@@ -69,6 +69,9 @@ def function_query(f):
         return "ask", "ASK { FILTER ($%s > $%s) }" % (o[0], o[1])
     if f["kind"] == "ask_has":
         return "ask", "ASK { $%s ex:n ?x }" % o[0]
+    if f["kind"] == "lookup2":
+        # two projected variables, the second one bound first (and the first one maybe not at all): the result is the FIRST projected one
+        return "select", "SELECT ?r ?x WHERE { $%s ex:k ?x . OPTIONAL { ?x ex:k ?r } }" % o[0]
     return "select", "SELECT ?r WHERE { $%s ex:k ?r }" % o[0]
 
 
@@ -398,7 +401,8 @@ def main(tier, seed, replay=None):
                     r = run_function_directly(data, f, tup)
                     if r is not None:
                         computed.add((x, EX.computed, r))
-                        if r.value > limit:
+                        # the extra pattern `$this ex:m ?param` of the colliding-names variant only asks for SOME ex:m value
+                        if r.value > limit and (not extra_where or (x, EX.m, None) in data):
                             expected.add((x.n3(), r.n3()))
             if o[0] != "ok":
                 diffs.append({"what": "validate(advanced=True) with a function call in sh:sparql failed: %r" % (o[:3],), "shapes_ttl": ttl})
@@ -421,6 +425,37 @@ def main(tier, seed, replay=None):
             stats["advanced_off_cases"] += 1
             if off[0] == "ok" and any(str(r[2]).endswith("SPARQLConstraintComponent") for r in off[2]):
                 diffs.append({"what": "advanced=False: the function is still registered (the sh:sparql constraint that calls it reports results)", "shapes_ttl": ttl})
+    # functions whose SELECT projects two variables, the second one bound first by the pattern and the first one possibly unbound: the
+    # result is the value of the FIRST projected variable of the (here unique) solution, or nothing
+    for j in range(120 if tier == "thorough" else 14):
+        data = rdflib.Graph()
+        ns_ = [EX["pn%d" % i] for i in range(rng.randint(3, 6))]
+        for x in ns_:
+            data.add((x, RDF.type, EX.P))
+            if rng.random() < 0.75:
+                data.add((x, EX.k, rng.choice(ns_ + [Literal(7)])))     # at most one ex:k value each: one solution at most
+        f = {"node": EX["fnp%d" % j], "params": [{"name": rng.choice(["alpha", "node", "x1"]), "order": rng.choice([None, 3])}], "kind": "lookup2"}
+        ttl = PFX + function_ttl(f) + ("ex:S a sh:NodeShape ; sh:targetClass ex:P ; sh:rule [ a sh:TripleRule ; sh:subject sh:this ; sh:predicate ex:computed ; sh:object [ %s ( sh:this ) ] ] ;\n"
+                                        " sh:sparql [ sh:prefixes ex:prefixes ; sh:select \"SELECT $this ?value WHERE { BIND (%s($this) AS ?value) FILTER (bound(?value)) }\" ] .\n" % (f["node"].n3(), f["node"].n3()))
+        sg = rdflib.Graph().parse(data=ttl, format="turtle")
+        want = {}
+        for x in ns_:
+            r_ = run_function_directly(data, f, (x,))
+            if r_ is not None:
+                want[x] = r_
+        stats["projection_order_cases"] = stats.get("projection_order_cases", 0) + 1
+        try:
+            out = pyshacl.shacl_rules(data, shacl_graph=sg)
+            got_tr = {(t[0], t[2]) for t in out if t[1] == EX.computed}
+        except Exception as e:
+            diffs.append({"what": "shacl_rules() with a two-variable function raised %s: %s" % (type(e).__name__, str(e)[:150]), "shapes_ttl": ttl})
+            continue
+        o = S.run_validate(data, sg, advanced=True)
+        got_sp = {(r[0], r[1]) for r in o[2] if str(r[2]).endswith("SPARQLConstraintComponent")} if o[0] == "ok" else o[:2]
+        if got_tr != set(want.items()) or got_sp != set(want.items()):
+            diffs.append({"what": "a function whose SELECT projects two variables does not return the value of the first projected variable of its solution (or nothing when that one is unbound)",
+                          "shapes_ttl": ttl, "data": sorted(data.serialize(format="nt").split("\n")), "from_rule": sorted("%s %s" % (a.n3(), b.n3()) for a, b in got_tr),
+                          "from_sparql_constraint": sorted(map(str, got_sp)) if isinstance(got_sp, set) else list(got_sp), "expected": sorted("%s %s" % (a.n3(), b.n3()) for a, b in want.items())})
     failed, errors = F.coq_eval("c17", PREAMBLE, bodies, shard=80) if ob.ok else ([], ["coq build broken"])
     for d in diffs[:8]:
         rep.violation(d)
